@@ -491,6 +491,9 @@ type planErr struct{ s string }
 
 func (e planErr) Error() string { return e.s }
 
+// DoAnswer performs an answer of the given kind on a task request.
+func DoAnswer(tt bpmn.TaskTrace, a model.Answer) { doAnswer(tt, a) }
+
 func doAnswer(tt bpmn.TaskTrace, a model.Answer) {
 	switch a.Kind {
 	case model.AnsOK, "":
